@@ -4,6 +4,7 @@ fgutils.its.get_rc / fgutils.utils.get_unreachable_nodes / fgutils.its.prune_its
 (and ITS(g).prune(...) = complete_aam(g, 'min') followed by prune_its_to_rc)."""
 import itertools
 
+import zlib
 import networkx as nx
 
 import lib
@@ -22,7 +23,7 @@ CORRESPONDENCE = ("Model.Prune.{get_rc,get_unreachable_nodes,prune_its_to_rc} ~ 
                   "fgutils.utils.get_unreachable_nodes, fgutils.its.prune_its_to_rc, fgutils.its.ITS.prune "
                   "(get_rc compared as labelled graphs, unreachable lists and pruned graphs compared exactly, "
                   "including node and adjacency order; exceptions compared by class)")
-RULE = ("operations get_rc / get_unreachable_nodes / prune_its_to_rc / ITS(g).prune on: random ITS graphs "
+RULE = ("every ITS(g).prune case is followed by a SECOND prune on the same ITS object (same radius / +1 / -1, hydrogens on or off) compared with prune_its_to_rc on a copy of the object's graph; operations get_rc / get_unreachable_nodes / prune_its_to_rc / ITS(g).prune on: random ITS graphs "
         "(trees, rings, disconnected; 1-12 atoms; tuple labels, sometimes list labels; bond orders 0..3 incl. 1.5; "
         "0-3 reaction-centre edges; rarely a scalar label or a symbol-less atom so that the TypeError/KeyError "
         "paths are exercised), ITS graphs built like the library does (ids = map numbers from 1, idx_map/aam attributes), "
@@ -538,6 +539,7 @@ ERRORS = (TypeError, KeyError, nx.NetworkXError, ValueError)
 def run_impl(c):
     g = gens.copy_exact(c["graph"])
     before = gens.copy_exact(g)
+    hist = None
     try:
         if c["op"] == "rc":
             out = ("ok", get_rc(g))
@@ -557,10 +559,38 @@ def run_impl(c):
             else:
                 its.prune(radius=c["radius"], insert_hydrogens=c["ih"])
             out = ("ok", its.graph)
+            hist = _prune_again(its, c)
     except ERRORS as e:
         name = "NetworkXError" if isinstance(e, nx.NetworkXError) else type(e).__name__
         out = (name, str(e))
-    return out + (gens.graphs_identical(before, g),)
+    return out + (gens.graphs_identical(before, g), hist)
+
+
+def _prune_again(its, c):
+    """history on ONE ITS object: prune again (same radius / one more / one less, hydrogens off or on) and compare with
+    prune_its_to_rc on a copy of the graph the object held before that call - what an earlier call did to the object
+    (beyond its graph) must not matter. Returns a message or None."""
+    r0 = 1 if c.get("defaults") else c["radius"]
+    z = zlib.crc32(repr((c["radius"], c["ih"], c["graph"].number_of_nodes(), sorted(map(repr, c["graph"].nodes)))).encode())
+    r2 = max(0, r0 + [0, 0, 1, -1][z % 4])
+    ih2 = bool((z >> 3) % 3 == 0)
+    state = gens.copy_exact(its.graph)
+    try:
+        expect = ("ok", prune_its_to_rc(gens.copy_exact(state), radius=r2, insert_hydrogens=ih2))
+    except ERRORS as e:
+        expect = (type(e).__name__, None)
+    try:
+        its.prune(radius=r2, insert_hydrogens=ih2)
+        got = ("ok", its.graph)
+    except ERRORS as e:
+        got = (type(e).__name__, None)
+    if got[0] != expect[0] or (got[0] == "ok" and not gens.graphs_identical(got[1], expect[1])):
+        return ("a second ITS.prune(radius=%d, insert_hydrogens=%s) on the same ITS object differs from prune_its_to_rc on a copy "
+                "of the graph the object held (%d nodes): %s vs %s" % (
+                    r2, ih2, state.number_of_nodes(),
+                    got[0] if got[0] != "ok" else sorted(map(repr, got[1].nodes)),
+                    expect[0] if expect[0] != "ok" else sorted(map(repr, expect[1].nodes))))
+    return None
 
 
 def params(c):
@@ -670,6 +700,9 @@ def classes(c, out):
 
 
 def py_invariants(c, out):
+    msgs = []
     if not out[2]:
-        return ["the argument graph was mutated by %s" % c["op"]]
-    return []
+        msgs.append("the argument graph was mutated by %s" % c["op"])
+    if len(out) > 3 and out[3]:
+        msgs.append(out[3])
+    return msgs
